@@ -318,6 +318,25 @@ fn main() {
             );
             finish(&cfg, &res, ev, &args.evidence);
         }
+        "leak-test" => {
+            // debug helper: execute a script file N times on fresh instances, print the resident size
+            let text = std::fs::read_to_string(&args.rest[0]).expect("script");
+            let n: u64 = args.rest.get(1).and_then(|s| s.parse().ok()).unwrap_or(20_000);
+            let clock = host::install_clock();
+            let rss = || -> u64 {
+                std::fs::read_to_string("/proc/self/statm")
+                    .ok()
+                    .and_then(|s| s.split_whitespace().nth(1).and_then(|x| x.parse::<u64>().ok()))
+                    .unwrap_or(0)
+                    * 4
+                    / 1024
+            };
+            let before = rss();
+            for _ in 0..n {
+                let _ = unwindsim::execute(&text, &Default::default(), &clock, 1_000_000);
+            }
+            println!("rss before {before} MB, after {n} executions {} MB", rss());
+        }
         "run-script" => {
             // debug helper: run a script file on an instrumented instance, print result and H3 state
             let text = std::fs::read_to_string(&args.rest[0]).expect("script");
